@@ -44,6 +44,18 @@ def reals(rng: random.Random, shape, lo=-10.0, hi=10.0, special=True):
     return a
 
 
+def cancelling(rng: random.Random, n):
+    """n dyadic values, not all zero (n >= 2), whose sum is EXACTLY 0.0 in floating point in every summation order:
+    the input on which a `sum(x) == 0` / `not x.any()`-style shortcut and the definition part ways"""
+    a = np.zeros(n)
+    for i in range(0, n - 1, 2):
+        v = rng.choice([1.0, 2.0, 0.5, 4.0, 0.25, 3.0])
+        a[i], a[i + 1] = v, -v
+    idx = list(range(n))
+    rng.shuffle(idx)
+    return a[idx]
+
+
 def np_rng(rng: random.Random):
     return np.random.default_rng(rng.randrange(2 ** 32))
 
